@@ -113,7 +113,7 @@ func (r *FaultyRules) OnSignBeaconAttestations(ctx context.Context, md []*rules.
 		}
 		return l
 	}
-	switch r.Env.Choose("rules.OnSignBeaconAttestations", 7, "*", "*", "*", fmt.Sprintf("pos:%d", len(req)-1), "*", "pos:0") {
+	switch r.Env.Choose("rules.OnSignBeaconAttestations", 9, "*", "*", "*", fmt.Sprintf("pos:%d", len(req)-1), "*", "pos:0", fmt.Sprintf("pos:%d", len(req)-1), "pos:1") {
 	case 1:
 		return all(rules.UNKNOWN)
 	case 2:
@@ -132,6 +132,18 @@ func (r *FaultyRules) OnSignBeaconAttestations(ctx context.Context, md []*rules.
 		res := r.Service.OnSignBeaconAttestations(ctx, md, req)
 		if len(res) > 0 {
 			res[0] = rules.UNKNOWN
+		}
+		return res
+	case 7: // ... but the last (an indeterminate answer right after approvals)
+		res := r.Service.OnSignBeaconAttestations(ctx, md, req)
+		if len(res) > 0 {
+			res[len(res)-1] = rules.UNKNOWN
+		}
+		return res
+	case 8: // ... but the second, which failed
+		res := r.Service.OnSignBeaconAttestations(ctx, md, req)
+		if len(res) > 1 {
+			res[1] = rules.FAILED
 		}
 		return res
 	}
